@@ -108,7 +108,7 @@ class Trace:
             elif kind in ("EV_TIMER", "EV_CMD", "EV_BOOT", "EV_MSG", "EV_SHUTDOWN"):
                 if cur is not None and kind == "EV_SHUTDOWN":
                     continue
-                cur = {"t": t, "kind": kind, "body": body, "out": [], "lookup": None}
+                cur = {"t": t, "kind": kind, "body": body, "out": [], "lookup": None, "tops": []}
                 if kind == "EV_CMD" and body.strip() == "StartLookup":
                     if n_start_cmds < len(self.search_calls):
                         cur["call"] = self.search_calls[n_start_cmds]
@@ -121,9 +121,13 @@ class Trace:
                     self.pending.append((t, int(m.group(1))))
             elif kind == "EV_END":
                 if cur is not None:
+                    if cur.get("pending_end") is not None:
+                        cur["out"].append(("end", cur.pop("pending_end")))
                     self.events.append(cur)
                 cur = None
             elif cur is not None:
+                if kind in ("T_ADDNODES", "T_LREQ", "T_RREQ"):
+                    cur["tops"].append((kind, body))
                 if kind == "SEND":
                     a, h = body.split()
                     cur["out"].append(("send", parse_sock(a), h))
@@ -135,12 +139,19 @@ class Trace:
                     m = re.match(r"ActionID \{ action_id: (\d+) \} (\S+)", body)
                     cur["out"].append(("yield", int(m.group(1)), parse_sock(m.group(2))))
                 elif kind == "FINISHED":
+                    # logged when recv_finished starts; the stream really ends after the announces
                     m = re.match(r"ActionID \{ action_id: (\d+) \}", body)
+                    if cur.get("pending_end") is not None:
+                        cur["out"].append(("end", cur.pop("pending_end")))
+                    cur["pending_end"] = int(m.group(1))
+                    cur.setdefault("finished_all", []).append(int(m.group(1)))
                     cur["finished"] = int(m.group(1))
                 elif kind == "REFRESH_ROUND":
                     cur["out"].append(("round", int(body.split("=")[1])))
                     self.refresh_rounds.append(t)
                 elif kind == "LOOKUP_START":
+                    if cur.get("pending_end") is not None:
+                        cur["out"].append(("end", cur.pop("pending_end")))
                     m = re.match(r"ActionID \{ action_id: (\d+) \} target=([0-9a-f]{40}) announce=(true|false)", body)
                     cur["lookup"] = (int(m.group(1)), int(m.group(2), 16), m.group(3) == "true")
                     self.lookup_aids.append(int(m.group(1)))
@@ -160,9 +171,6 @@ class Trace:
                     self.refresh_rounds.append(t)
         for k, a in enumerate(self.lookup_aids):
             self.aids[2 + k] = a
-        for e in self.events:
-            if "finished" in e:
-                e["out"].append(("end", e["finished"]))
 
     # ---- Coq terms ----
     def coq_addr(self, a):
